@@ -93,7 +93,12 @@ package state
 //@   ensures [down] w.shutdown
 //@   ensures [parent-cancelled] cancelled[w.parentCtxWithCancel.cancel]
 
+// ---- construction: the registry starts empty, not shut down, with a live parent context; the state starts at (0, 0) ----
 //@ func NewViewContexts
-//@   props C15
-//@   ensures [fresh] result != nil && !result.shutdown && result.newestHvCanceledOlder == nil && result.hvToContext != nil && result.parentCtxWithCancel != nil
+//@   props C15 C12
+//@   ensures [fresh-registry] result != nil && !result.shutdown && result.newestHvCanceledOlder == nil && result.hvToContext != nil && result.parentCtxWithCancel != nil && result.parentCtxWithCancel.ctx != nil
 //@   ensures [empty] forall k HeightView :: !has(result.hvToContext, k)
+//@ func NewState
+//@   props C13 C15 C12
+//@   ensures [starts-at-zero] result != nil && result.height == 0 && result.view == 0
+//@   ensures [with-a-fresh-registry] result.Contexts != nil && !result.Contexts.shutdown && result.Contexts.newestHvCanceledOlder == nil && result.Contexts.hvToContext != nil && result.Contexts.parentCtxWithCancel != nil && result.Contexts.parentCtxWithCancel.ctx != nil
